@@ -364,14 +364,38 @@ func checkTxHooks(r *Run, p *Prog) {
 				return ok && fieldVar(l, s) == flushF
 			})
 		}
-		gate := c.EdgesEstablishing(func(atom ast.Expr, val bool) bool { return val && objOf(l, atom) == committed })
-		q2, vis2 := c.ReachAvoiding([]Point{c.Entry()}, gate, nil)
-		ok2 := len(gate) > 0 && len(c.NodesWhere(isFlush)) > 0
+		// truth table over "the transaction committed" (E17) with the flush call as an
+		// event of the path: never flushed when not committed, flushed on some path when
+		// committed - whether the test is written in the cleanup or in a predicate
+		classify := func(ev *ttEval, st *ttState, f *FuncNode, e ast.Expr) (string, bool, bool) {
+			if id, ok := ast.Unparen(e).(*ast.Ident); ok && f == l && objOf(f, id) == committed {
+				return "committed", false, true
+			}
+			return "", false, false
+		}
+		event := func(f *FuncNode, s ast.Stmt) string {
+			if f == l && isFlush(s) {
+				return "flush"
+			}
+			return ""
+		}
+		outcome := func(*FuncNode, *ast.ReturnStmt, []ttVal) string { return "end" }
+		table, bad := ttTableEv(p, l, []string{"committed"}, classify, outcome, false, event)
+		if bad != "" {
+			r.Undecide("C17.R4: the overlay cleanup could not be evaluated: %s", bad)
+			continue
+		}
+		ok2 := false
 		var p2 []string
-		for _, f := range c.NodesWhere(isFlush) {
-			if vis2[f] {
+		for o := range table[1] {
+			if strings.Contains(o, "+flush") {
+				ok2 = true
+			}
+		}
+		for o := range table[0] {
+			if strings.Contains(o, "+flush") {
 				ok2 = false
-				p2 = q2.PathTo(f)
+				p2 = []string{"flush reached with committed == false"}
 			}
 		}
 		r.ObPath("C17.R4.hooks", "the overlay flushes a delta only when its transaction committed", p.Position(l.Pos()), ok2, "an aborted transaction must leave nothing in the index", p2)
